@@ -309,3 +309,6 @@ func WitnessSerializeSize(w [][]byte) int64 {
 	}
 	return n
 }
+
+// AnnexHash is sha256(compact_size(len(annex)) || annex) as committed by BIP341.
+func AnnexHash(annex []byte) [32]byte { return sha(varBytes(nil, annex)) }
